@@ -1,2 +1,169 @@
+(* C10 — proofs about the model (Model.v) against the statement (Spec.v): the buffered reader. *)
+From Coq Require Import Lia.
 From C10 Require Import Model Spec.
-Lemma placeholder : True. Proof. exact I. Qed.
+
+Definition nolf (l : list N) : Prop := ~ In LF l.
+
+Lemma nolf_cons c l : nolf (c :: l) -> N.eqb c LF = false /\ nolf l.
+Proof.
+  unfold nolf; simpl; intros H; split.
+  - apply N.eqb_neq; intro E; apply H; left; exact E.
+  - intro I; apply H; right; exact I.
+Qed.
+
+Lemma nolf_nil : nolf []. Proof. unfold nolf; simpl; tauto. Qed.
+
+Lemma nolf_skipn n : forall l, nolf l -> nolf (skipn n l).
+Proof.
+  induction n; intros l H; simpl; auto.
+  destruct l; auto. apply IHn. apply (nolf_cons _ _ H).
+Qed.
+
+Lemma nolf_cr l : nolf l -> nolf (CR :: l).
+Proof. unfold nolf; simpl; intros H [E | I]; [discriminate E | auto]. Qed.
+
+(* ---------------------------------------------------------------- ReadSlice *)
+
+Lemma rs_line eager : forall n l rest, nolf l -> length l < n ->
+  read_slice eager n (l ++ LF :: rest) = SDelim l rest.
+Proof.
+  induction n; intros l rest H L; [lia|].
+  destruct l as [|c l]; simpl.
+  - reflexivity.
+  - destruct (nolf_cons _ _ H) as [E H']. rewrite E. rewrite IHn; auto. simpl in L; lia.
+Qed.
+
+Lemma rs_full eager : forall n l rest, nolf l -> n <= length l ->
+  read_slice eager n (l ++ LF :: rest) = SFull (firstn n l) (skipn n l ++ LF :: rest).
+Proof.
+  induction n; intros l rest H L.
+  - simpl. destruct l; reflexivity.
+  - destruct l as [|c l]; simpl in L; [lia|]. simpl.
+    destruct (nolf_cons _ _ H) as [E H']. rewrite E. rewrite IHn; auto. lia.
+Qed.
+
+Lemma rs_tail_short eager : forall n tl, nolf tl -> length tl < n -> read_slice eager n tl = SEof tl.
+Proof.
+  induction n; intros tl H L; [lia|].
+  destruct tl as [|c l]; simpl; auto.
+  destruct (nolf_cons _ _ H) as [E H']. rewrite E. rewrite IHn; auto. simpl in L; lia.
+Qed.
+
+Lemma rs_tail_eq eager : forall n tl, nolf tl -> length tl = n ->
+  read_slice eager n tl = if eager then SEof tl else SFull tl [].
+Proof.
+  induction n; intros tl H L.
+  - destruct tl; [|discriminate]. simpl. destruct eager; reflexivity.
+  - destruct tl as [|c l]; [discriminate|]. simpl.
+    destruct (nolf_cons _ _ H) as [E H']. rewrite E. rewrite IHn; auto. destruct eager; reflexivity.
+Qed.
+
+Lemma rs_tail_long eager : forall n tl, nolf tl -> n < length tl ->
+  read_slice eager n tl = SFull (firstn n tl) (skipn n tl).
+Proof.
+  induction n; intros tl H L.
+  - destruct tl; simpl in *; [lia|reflexivity].
+  - destruct tl as [|c l]; simpl in L; [lia|]. simpl.
+    destruct (nolf_cons _ _ H) as [E H']. rewrite E. rewrite IHn; auto. lia.
+Qed.
+
+(* ---------------------------------------------------------------- ReadLine *)
+
+Lemma drop_last_cr_length : forall l i, drop_last_cr l = Some i -> length l = S (length i).
+Proof.
+  induction l as [|c l IH]; intros i H; simpl in H; [discriminate|].
+  destruct l as [|d l].
+  - destruct (N.eqb c CR); inversion H; reflexivity.
+  - destruct (drop_last_cr (d :: l)) eqn:E; [|discriminate]. inversion H; subst.
+    specialize (IH _ eq_refl). simpl in *. lia.
+Qed.
+
+Section RL.
+  Variable eager : bool.
+  Variable B : nat.
+  Hypothesis HB : 2 <= B.
+
+  Lemma rl_fit l rest : nolf l -> length l < B ->
+    read_line eager B (l ++ LF :: rest) = RLine (strip_cr l) false rest.
+  Proof. intros H L. unfold read_line. rewrite rs_line; auto. Qed.
+
+  Lemma rl_big l rest : nolf l -> B <= length l ->
+    exists c l', read_line eager B (l ++ LF :: rest) = RLine c true (l' ++ LF :: rest)
+                 /\ nolf l' /\ length l' < length l.
+  Proof.
+    intros H L. unfold read_line. rewrite rs_full; auto.
+    destruct (drop_last_cr (firstn B l)) as [i|] eqn:E.
+    - exists i, (CR :: skipn B l). split; [reflexivity|]. split.
+      + apply nolf_cr, nolf_skipn, H.
+      + simpl. rewrite skipn_length. lia.
+    - exists (firstn B l), (skipn B l). split; [reflexivity|]. split.
+      + apply nolf_skipn, H.
+      + rewrite skipn_length. lia.
+  Qed.
+
+  Lemma rl_nil : read_line eager B [] = REof.
+  Proof. unfold read_line. destruct B; [lia|]. reflexivity. Qed.
+
+  Lemma rl_tail_fit tl : tl <> [] -> nolf tl -> tail_fits eager B tl = true ->
+    read_line eager B tl = RLine tl false [].
+  Proof.
+    intros NE H F. unfold read_line, tail_fits in *.
+    apply orb_true_iff in F. destruct F as [F|F].
+    - apply Nat.ltb_lt in F. rewrite rs_tail_short; auto. destruct tl; [congruence|reflexivity].
+    - apply andb_true_iff in F. destruct F as [F1 F2]. apply Nat.eqb_eq in F2. subst eager.
+      rewrite rs_tail_eq; auto. destruct tl; [congruence|reflexivity].
+  Qed.
+
+  Lemma rl_tail_big tl : nolf tl -> tail_fits eager B tl = false ->
+    exists c l', read_line eager B tl = RLine c true l' /\ nolf l' /\ length l' < length tl.
+  Proof.
+    intros H F. unfold read_line, tail_fits in *.
+    apply orb_false_iff in F. destruct F as [F1 F2]. apply Nat.ltb_ge in F1.
+    destruct (Nat.eq_dec (length tl) B) as [EQ|NEQ].
+    - rewrite (proj2 (Nat.eqb_eq _ _) EQ) in F2. rewrite andb_true_r in F2. subst eager.
+      rewrite rs_tail_eq; auto.
+      destruct (drop_last_cr tl) as [i|] eqn:E.
+      + exists i, [CR]. split; [reflexivity|]. split; [apply nolf_cr, nolf_nil|]. simpl; lia.
+      + exists tl, []. split; [reflexivity|]. split; [apply nolf_nil|]. simpl; lia.
+    - rewrite rs_tail_long; auto; [|lia].
+      destruct (drop_last_cr (firstn B tl)) as [i|] eqn:E.
+      + exists i, (CR :: skipn B tl). split; [reflexivity|]. split.
+        * apply nolf_cr, nolf_skipn, H.
+        * simpl. rewrite skipn_length. lia.
+      + exists (firstn B tl), (skipn B tl). split; [reflexivity|]. split.
+        * apply nolf_skipn, H.
+        * rewrite skipn_length. lia.
+  Qed.
+
+  (* -------------------------------------------------------------- the skip loop *)
+
+  Lemma skip_big_tail : forall m tl f, length tl <= m -> nolf tl -> length tl < f ->
+    skip_big eager B f tl = Ok [].
+  Proof.
+    induction m; intros tl f L H F.
+    - destruct tl; [|simpl in L; lia]. destruct f; [lia|]. simpl. rewrite rl_nil. reflexivity.
+    - destruct f; [lia|]. simpl.
+      destruct tl as [|c0 t0] eqn:ET.
+      + rewrite rl_nil. reflexivity.
+      + rewrite <- ET in *. assert (NE : tl <> []) by (rewrite ET; discriminate).
+        destruct (tail_fits eager B tl) eqn:TF.
+        * rewrite rl_tail_fit; auto.
+        * destruct (rl_tail_big tl H TF) as (c & l' & E & H' & L'). rewrite E.
+          apply IHm; auto; lia.
+  Qed.
+
+  Lemma skip_big_line : forall m l rest f, length l <= m -> nolf l -> length l < f ->
+    skip_big eager B f (l ++ LF :: rest) = Ok rest.
+  Proof.
+    induction m; intros l rest f L H F.
+    - destruct l; [|simpl in L; lia]. destruct f; [lia|].
+      assert (R : read_line eager B (LF :: rest) = RLine (strip_cr []) false rest)
+        by (apply (rl_fit [] rest); [apply nolf_nil|simpl; lia]).
+      simpl. rewrite R. reflexivity.
+    - destruct f; [lia|]. simpl.
+      destruct (Nat.lt_ge_cases (length l) B) as [LT|GE].
+      + rewrite rl_fit; auto.
+      + destruct (rl_big l rest H GE) as (c & l' & E & H' & L'). rewrite E.
+        apply IHm; auto; lia.
+  Qed.
+End RL.
